@@ -202,6 +202,25 @@ def lowerName (n : Bytes) : Bytes := n.map Ascii.toLower
 
 def normPairs (ps : List Pair) : List Pair := ps.map (fun p => (lowerName p.1, owsTrim p.2))
 
+/-! ### trailers frames as servers write them (C17's input domain) -/
+
+/-- one trailer line: `name:value CRLF`, or with the customary space, `name: value CRLF` -/
+def lineOfSp (sp : Bool) (p : Pair) : Bytes :=
+  p.1 ++ (if sp then [58, 32] else [58]) ++ p.2 ++ [13, 10]
+
+def trailersBlock (sp : Bool) (ps : List Pair) : Bytes := ps.flatMap (lineOfSp sp)
+
+def trailersFrame (sp : Bool) (ps : List Pair) : Bytes := rawFrame 128 (trailersBlock sp ps)
+
+def isUpper (b : UInt8) : Bool := 65 ≤ b.toNat && b.toNat ≤ 90
+
+/-- a lower-case field name (HTTP/2 form; what tonic itself writes) -/
+def lowerNameOk (n : Bytes) : Bool :=
+  !n.isEmpty && n.length ≤ 65535 && n.all (fun b => tchar b && !isUpper b)
+
+/-- a field value in its canonical form: legal bytes, no leading space -/
+def plainValueOk (v : Bytes) : Bool := fieldValueOk v && v.head? != some 32
+
 /-! ### Which requests are grpc-web requests (PROTOCOL-WEB.md content types) -/
 
 /-- `some text?` iff `ct` is `application/grpc-web[-text][+proto]`. -/
